@@ -279,12 +279,22 @@ def m2(ctx, rep):
         d0 = kwarg(pc, 'data_frame', 0)
         rep.check('M2.axes', helper, pc, isinstance(d0, ast.Name) and d0.id == 'data',
                   'plots the frame it was given', 'plots something other than the given frame', construct='px data')
+        from ..kinds import DepKind
+        from ..absint import Frame as _F
+        dk = DepKind(ctx)
+        bases = set()
         for axis, idx in (('x', 0), ('y', 1), ('z', 2))[:dim]:
             a = kwarg(pc, axis)
-            good = (isinstance(a, ast.Subscript) and isinstance(a.value, ast.Name) and a.value.id == 'columns'
-                    and const_value(a.slice) == idx)
-            rep.check('M2.axes', helper, pc, good, f'{axis} = columns[{idx}]',
-                      f'{axis} axis is {short(a)} instead of columns[{idx}]', construct=f'{axis} axis')
+            if not (isinstance(a, ast.Subscript) and isinstance(const_value(a.slice), int)):
+                rep.undecided('M2.axes', helper, pc, f'{axis} axis is {short(a)}: not an indexed column list', construct=f'{axis} axis')
+                continue
+            bases.add(ast.dump(a.value))
+            deps = dk.value(a.value, _F(helper, {}))
+            from_cols = isinstance(deps, frozenset) and 'param:columns' in deps
+            rep.check('M2.axes', helper, pc, const_value(a.slice) == idx and from_cols, f'{axis} = element {idx} of the requested (or default) columns',
+                      f'{axis} axis is {short(a)}: not element {idx} of the requested columns', construct=f'{axis} axis')
+        if len(bases) > 1:
+            rep.bad('M2.axes', helper, pc, 'the axes are taken from different column lists', construct='axes share one column list')
         col = kwarg(pc, 'color')
         rep.check('M2.axes', helper, pc, const_value(col) == label_col and label_col is not None,
                   f"colour follows the '{label_col}' column", f'colour is {short(col)}, label column is {label_col!r}',
